@@ -175,6 +175,9 @@ func VerifC12_HookErrors() {
 	after := rt.Int64("retry-after")
 	rt.Assume(after >= 0 && after < 100000)
 	tooMany := rt.Bool("429")
+	// the failing hook is the sync hook of a live parent, or the finalize hook
+	// of a parent that is being deleted
+	finalizing := rt.Bool("answer-comes-from-the-finalize-hook")
 	hook := &verifHook{enabled: true, fn: func(req *v1.CompositeHookRequest) (*v1.CompositeHookResponse, error) {
 		if tooMany {
 			return nil, &hooks.TooManyRequestError{AfterSecond: int(after)}
@@ -182,6 +185,16 @@ func VerifC12_HookErrors() {
 		return nil, hooksError{}
 	}}
 	s := verifC12Setup(hook)
+	if finalizing {
+		rt.Cover("finalize-hook")
+		s.pc.finalizeHook = hook
+		s.pc.finalizer.Enabled = true
+		p := s.w.Srv.Peek("things", "ns", "p").DeepCopy()
+		verifSetFinalizers(p, verifFinalizerName)
+		env.MarkDeleting(p)
+		s.w.Srv.Put("things", p)
+		s.pc.SnapshotFromStore()
+	}
 	s.pc.Queue.Items = append(s.pc.Queue.Items, "ns/p")
 	s.pc.processNextWorkItem()
 	rt.Assert(len(verifChildWrites(s.w.Srv.Log, "things")) == 0, "hook-error/child-written")
